@@ -30,6 +30,14 @@ Object-level commands (`objcmd_stream`, `harness/impl/objcmd.py`): `upload_objec
 real `Repository` (memory backend, real local backend) run in worker processes from a scratch working directory on generated scenarios, against the
 compiled model `store.cmd.run` (`ObjCmd.lean`); oracle = the statements of the object-command theorems on the real results.
 
+Overlapping calls (`overlap_stream`, `overlap_sweep`, `harness/impl/c13_overlap.py`): the Repository runs the synchronous local backend on a thread pool, so ONE
+`Local` object has several calls in flight at the same time.  Two to four uploads (`upload_stream` with gated input streams, `upload`) — to the SAME name, to
+different names of one directory whose base names agree on the first `Gen.localTempStemLen` characters (the backend shortens the temporary's name), to short
+siblings, to equal base names in two directories — overlap with each other and with `exists` / `download` / `download_stream` (gated sink) / `list_files` / `delete`
+under generated schedules at read granularity (random interleavings, one-after-the-other, and the schedule of the Lean witness `shared_temp_witness`: a writer has
+written and not yet renamed when the next one starts).  Oracle: linearisability against the plain map, with the directory read after every release as a further
+observer; tie: the same schedule step by step on `LocalConc.run` (`lconc.run`) with the temporaries the calls were seen to use, and the naming rule (`lconc.tempname`).
+
 Direct oracle: the property's own statement — every return value of every real adapter equals what a plain Python dict gives.
 Main histories stay inside the region the theorems cover (see `*_ok` below, mirrored from the hypotheses in
 Properties/C13.lean); *frontier probes* exercise each excluded input class on the real code and report what they find with a
@@ -50,6 +58,7 @@ import types
 
 from ..common import LEAN, WORK, REPO, rng_for
 from ..impl import c13_location as locs
+from ..impl import c13_overlap as ov
 from ..impl import fake_b2, fake_s3, localfs
 
 # ------------------------------------------------------------------------------------------------ names
@@ -660,6 +669,16 @@ def gen_flag(name, default):
         return default
     v = m.group(1)
     return v == 'true' if v in ('true', 'false') else v.strip('"')
+
+
+def gen_nat(name, default):
+    """a Nat constant of the regenerated Generated.lean"""
+    try:
+        t = (LEAN / 'ReplicatModel' / 'Generated.lean').read_text()
+    except OSError:
+        return default
+    m = re.search(r'def %s : Nat := (\d+)' % re.escape(name), t)
+    return int(m.group(1)) if m else default
 
 
 def root_made_absolute():
@@ -1631,6 +1650,174 @@ def objcmd_stream(ctx, r, n):
     out.extra['objcmd_observations_outside_the_theorems'] = observations
 
 
+# ------------------------------------------------------------------------------------------------ overlapping calls on one local backend object
+def overlap_consts():
+    stem = gen_nat('localTempStemLen', 240)
+    return {'stem_len': stem if 8 <= stem <= 250 else 240, 'stream_chunk': gen_nat('streamChunk', 128000), 'suffix': gen_flag('localListExcludeSuffix', '.tmp') or '.tmp'}
+
+
+def overlap_replay_of(case, res):
+    return {'kind': 'overlap', 'adapter': 'local', 'case': case, 'schedule': res['releases'],
+            'returns': [short({k: ('<%d bytes>' % len(v) if isinstance(v, bytes) else v) for k, v in (x or {}).items()}, 200) for x in res['rets']],
+            'note': 'parts = the calls (data = `len` times the byte `fill`); schedule = which call was released at each step (a release lets the call run to its next read of '
+                    'the input stream / write to the sink, or to its return); initial = objects uploaded one after the other before the calls start'}
+
+
+def overlap_oracle(case, res):
+    """None if the run is linearisable against the plain map and leaves no temporary, else (sig, what)"""
+    head = (f'one Local object, {len(case["parts"])} calls in flight together (name class {case["class"]!r}, schedule {case["schedule_class"]!r}, '
+            f'{len(res["releases"])} releases): ')
+    if res['hung']:
+        stuck = [ov.label_of(i, p) for i, p in enumerate(case['parts']) if res['rets'][i] is None or res['rets'][i] == {'error': 'abandoned'}]
+        return 'local:overlap:call-does-not-return', head + 'these calls neither return nor reach their next read / write: ' + '; '.join(stuck)[:400]
+    if ov.linearise(res['initial'], res['events']) is None:
+        kind, text = ov.explain(res['initial'], res['events'])
+        return 'local:overlap:' + kind, head + text
+    if res['left_temps']:
+        return 'local:overlap:temp-left-behind', head + f'after all calls returned the temporaries {res["left_temps"][:3]} are still in the repository directory'
+    return None
+
+
+def check_overlap(ctx, case, consts, origin):
+    out = ctx.out
+    res = ov.run_case(case, ctx.newdir(), suffix=consts['suffix'], stem_len=consts['stem_len'])
+    if res['hung']:
+        # a call that reaches neither a gate nor its return within ov.WAIT seconds: on a busy machine that can be the machine — once more, with patience
+        out.count('overlap:no-progress-within-%ds:case-run-again' % ov.WAIT)
+        saved, ov.WAIT = ov.WAIT, 120.0
+        try:
+            res = ov.run_case(case, ctx.newdir(), suffix=consts['suffix'], stem_len=consts['stem_len'])
+        finally:
+            ov.WAIT = saved
+    st = ov.overlap_stats(case, res, consts['stem_len'])
+    shown = dict(case, names=[ov.short_name(n) for n in case['names']], initial={ov.short_name(k): v for k, v in case['initial'].items()},
+                 parts=[dict(p, name=ov.short_name(p['name'])) if 'name' in p else p for p in case['parts']], plan=case['plan'][:40], kind='overlap')
+    out.case(shown, st['pairs'] >= 1 and len(res['releases']) >= 6)
+    out.count('overlap:' + origin)
+    out.count('overlap:name-class:' + case['class'])
+    out.count('overlap:schedule:' + case['schedule_class'])
+    out.count('overlap:root:' + case['root_spelling'])
+    out.count('overlap:releases', len(res['releases']))
+    out.count('overlap:directory-snapshots', len(res['snaps']))
+    for p in case['parts']:
+        out.count('overlap:call:' + p['op'])
+        if p['op'] == 'upload_stream':
+            n, c = p['data']['len'], p['chunk']
+            out.count('overlap:stream:' + ('empty' if n == 0 else '1-piece' if n <= c else '2-pieces' if n <= 2 * c else '3+-pieces') + (':chunk>=4096' if c >= 4096 else ':chunk<4096'))
+        if 'name' in p and len(os.path.basename(p['name'])) >= consts['stem_len']:
+            out.count('overlap:call-on-a-base-name-of-at-least-%d-characters' % consts['stem_len'])
+    out.count('overlap:uploads-in-flight-together(pairs)', st['pairs'])
+    out.count('overlap:uploads-in-flight-together:to-ONE-name(pairs)', st['same-name'])
+    out.count('overlap:uploads-in-flight-together:different-names-agreeing-on-the-first-%d-characters(pairs)' % consts['stem_len'], st['same-stem'])
+    out.count('overlap:reader-in-flight-while-an-upload-of-its-name-returned', st['reader-over-rename'])
+    if any(w['retried'] for w in res['writers'].values()):
+        out.count('overlap:upload-retried-by-the-backend')
+    replay = overlap_replay_of(case, res)
+    bad = overlap_oracle(case, res)
+    if bad is not None:
+        out.violation(bad[0], bad[1], replay)
+        return False
+    # ---- tie: the same schedule on the Lean model, with the temporaries the calls were seen to use
+    if ctx.drv is None:
+        return True
+    req = ov.model_request(case, res, consts['suffix'], consts['stem_len'])
+    if req is None:
+        out.count('overlap:tie-skipped:an-upload-was-retried')
+        return True
+    seen = [(i, w) for i, w in sorted(res['writers'].items()) if w['tmp'] is not None and not w.get('shared_seen')]
+    treqs = []
+    for i, w in seen:
+        name = case['parts'][i]['name']
+        base, tb = os.path.basename(name), os.path.basename(w['tmp'])
+        stem = base[:consts['stem_len']]
+        rnd = tb[len(stem) + 1:len(tb) - len(consts['suffix'])] if tb.startswith(stem + '_') and tb.endswith(consts['suffix']) else None
+        treqs.append((i, w, rnd, {'op': 'lconc.tempname', 'dir_slash': name[:len(name) - len(base)], 'base': base, 'rnd': rnd or ''}))
+    replies = ctx.drv.ask_many([req] + [t[3] for t in treqs])
+    m, agreed = replies[0], True
+    for (i, w, rnd, _), tm in zip(treqs, replies[1:]):
+        out.count('overlap:temporary-seen')
+        if rnd is None or tm.get('tmp') != w['tmp'] or not tm.get('is_tmp') or not tm.get('fits'):
+            agreed = False
+            out.disagreement('local, overlapping calls: the temporary a call was seen to use is not what the model\'s naming rule gives',
+                             dict(replay, call=i, seen=w['tmp'], model=tm))
+    if 'error' in m:
+        out.disagreement('driver error on lconc.run', dict(replay, reply=m))
+        return True
+    if not m['private']:
+        # two calls were seen to use ONE temporary: outside `concurrent_uploads_linearizable` (the path-level model is not what the code does then)
+        out.count('overlap:tie-skipped:calls-seen-to-share-a-temporary(outside-the-theorem)')
+        return True
+    diffs = []
+    if not (m['hypotheses'] and m['linearised']):
+        diffs.append(('the model\'s run does not satisfy the theorem', {'hypotheses': m['hypotheses'], 'linearised': m['linearised']}))
+    for t, s in enumerate(res['snaps']):
+        k = s['model_events']
+        if k >= len(m['states']):
+            diffs.append(('release #%d: the model has no configuration %d' % (t, k), None))
+            break
+        real = sorted([n, ov.rle(d)] for n, d in s['files'].items())
+        if m['states'][k] != real:
+            diffs.append(('release #%d: readable files differ' % t, {'model': short(m['states'][k], 400), 'impl': short(real, 400)}))
+            break
+        if m['temps'][k] != len(s['temps']):
+            diffs.append(('release #%d: number of temporaries in the directory differs' % t, {'model': m['temps'][k], 'impl': s['temps']}))
+            break
+    if res['snaps'] and res['snaps'][-1]['model_events'] != len(m['states']) - 1:
+        diffs.append(('the calls made fewer / more file-system steps than their plans have', {'events': res['snaps'][-1]['model_events'], 'model': len(m['states']) - 1}))
+    if sorted(m['returned']) != list(range(len(req['calls']))):
+        diffs.append(('not every upload has returned in the model', m['returned']))
+    if diffs:
+        agreed = False
+        out.disagreement('local, overlapping calls: model and implementation differ: ' + diffs[0][0], dict(replay, differences=[[a, b] for a, b in diffs[:3]]))
+    if agreed:
+        out.traces_validated += 1
+    return True
+
+
+def overlap_probes(ctx):
+    """Outside the theorems of the overlap section (they count CHARACTERS, for ASCII names): the backend cuts the temporary's name after `Gen.localTempStemLen`
+    characters while the file system limits a name to NAME_MAX BYTES.  Recorded as an observation (no oracle, nothing reported)."""
+    from replicat.backends.local import Local
+    out = ctx.out
+    consts = overlap_consts()
+    obs = {}
+    for label, n in (('non-ascii-base-name-of-%d-bytes' % (2 * (consts['stem_len'] // 2)), 'é' * (consts['stem_len'] // 2)), ('non-ascii-base-name-of-254-bytes', 'é' * 127), ('ascii-base-name-of-255-bytes', 'a' * 255)):
+        case = localfs.LocalCase(ctx.newdir())
+        try:
+            b = Local(case.enter('abs'))
+            rets = run_local(b, [{'op': 'upload', 'name': n, 'data': '01'}, {'op': 'exists', 'name': n}])
+        finally:
+            case.remove()
+        out.evaluations += 1
+        out.count('overlap:probe:' + label)
+        obs['local: upload then exists of a ' + label] = rets
+    out.extra['overlap_observations_outside_the_theorems'] = obs
+
+
+def overlap_stream(ctx, r, n):
+    """generated cases of overlapping calls on one local backend object (see the module docstring and `harness/impl/c13_overlap.py`)"""
+    consts = overlap_consts()
+    try:
+        for _ in range(n):
+            check_overlap(ctx, ov.gen_case(r, consts['stem_len'], consts['stream_chunk']), consts, 'generated')
+    finally:
+        ov.drop_pool()
+
+
+def overlap_sweep(ctx, r, reps):
+    """Seed-independent part: every name class × every pairing of upload kinds under the schedule of `shared_temp_witness` (a writer has written and
+    not yet renamed when the next starts and writes; the first renames; the observers look; the rest), and every name class one-after-the-other."""
+    consts = overlap_consts()
+    try:
+        for _ in range(reps):
+            for cls, _w in ov.NAME_CLASSES:
+                for kinds in (['upload_stream', 'upload_stream'], ['upload_stream', 'upload'], ['upload', 'upload_stream'], ['upload_stream', 'upload_stream', 'upload_stream']):
+                    check_overlap(ctx, ov.gen_case(r, consts['stem_len'], consts['stream_chunk'], cls=cls, sched='witness', kinds=kinds), consts, 'sweep:witness-schedule')
+                check_overlap(ctx, ov.gen_case(r, consts['stem_len'], consts['stream_chunk'], cls=cls, sched='one-after-the-other'), consts, 'sweep:one-after-the-other')
+    finally:
+        ov.drop_pool()
+
+
 # ------------------------------------------------------------------------------------------------ entry points
 def run(out, drv, info):
     _patch_sleeps()
@@ -1649,7 +1836,12 @@ def run(out, drv, info):
                 + '; object-level commands: scenario = initial objects + 2…6 commands of a real Repository (memory backend sync / coroutine, real local backend) run in a worker '
                 'process from a scratch working directory: generated file trees, path arguments (directories, files, repeats, overlaps, relative / absolute / dotted spellings, outside the cwd, '
                 'missing), prefixes, regular expressions, skip_existing, rate limits (chunk sizes 1…1000 and the default), pre-existing files, confirmation answers, cache directory; '
-                'non-trivial = ≥ 2 command kinds, a skip_existing flag and at least one transfer or deletion')
+                'non-trivial = ≥ 2 command kinds, a skip_existing flag and at least one transfer or deletion'
+                + '; overlapping calls: case = initial objects + 2…4 uploads (upload_stream with a gated input stream of 0…3 pieces, chunk sizes 1…65536 and the default; upload) and 0…3 '
+                'exists / download / download_stream (gated sink) / list_files / delete calls of ONE Local object, run on a thread pool under a schedule that releases one call at a time '
+                'to its next read / write (name classes: same name, long siblings agreeing on the first Gen.localTempStemLen characters, long names differing inside that stem, short '
+                'siblings, equal base names in two directories, mixed; schedules: the Lean witness\'s, random, one after the other); non-trivial = at least two uploads in flight '
+                'together and ≥ 6 releases')
     out.assumptions = ['the fake S3 / B2 services (harness/impl/fake_s3.py, fake_b2.py) follow the published protocols; server-side atomicity of PUT / upload is assumed',
                        'the operating system resolves every spelling of the repository location to the same directory; no symbolic links inside the repository',
                        'B2 location: the connection string is the id or the name of our bucket and of no other bucket of the account (bucket names may look like ids — Lean witness '
@@ -1664,7 +1856,11 @@ def run(out, drv, info):
                        '(the theorems show the result does not depend on it for distinct names); files to upload lie under the working directory (names of files outside it can collide — '
                        'Lean witness, probe); object names are canonical relative paths, none a directory prefix of another, also with respect to files already in the target / cache '
                        'directory; the local trees do not change during a command; no existing empty directories or symbolic links on the local side; the rate limiter and progress '
-                       'wrappers are transparent (C20); the regular expression is handed to the model as its extension on the names of the scenario']
+                       'wrappers are transparent (C20); the regular expression is handed to the model as its extension on the names of the scenario',
+                       'overlapping calls on one local backend object: pre-emption at the reads of the input streams / the writes to the sinks the caller hands over and at call '
+                       'boundaries only (exists / download / list_files / delete / upload run in one release); POSIX rename replaces the directory entry atomically and leaves an '
+                       'open file of the replaced object readable; all calls of one process (threads of a pool, as the Repository runs the backend) — several processes sharing a '
+                       'repository directory are not run; ASCII names of at most NAME_MAX = 255 characters per segment']
     try:
         r = rng_for(out.seed, 'C13')
         main_histories(ctx, r, 220 if quick else 3000, 4 if quick else 40)
@@ -1677,6 +1873,9 @@ def run(out, drv, info):
         loop_ties(ctx, rng_for(out.seed, 'C13-loops'), 150 if quick else 2500)
         pathlib_ties(ctx, rng_for(out.seed, 'C13-pathlib'), 400 if quick else 6000)
         objcmd_stream(ctx, rng_for(out.seed, 'C13-objcmd'), 300 if quick else 6000)
+        overlap_sweep(ctx, rng_for(out.seed, 'C13-overlap-sweep'), 1 if quick else 6)
+        overlap_stream(ctx, rng_for(out.seed, 'C13-overlap'), 170 if quick else 2500)
+        overlap_probes(ctx)
         sigs = {}
         for v in out.violations:
             sigs[v['sig']] = sigs.get(v['sig'], 0) + 1
@@ -1756,6 +1955,19 @@ def replay(path, drv):
             expect = {'names': [f for _, fs, _ in pages for f in fs], 'requests': len(pages)}
             print('replay: observed', real, 'expected', expect)
             return 1 if real != expect else 0
+        if kind == 'overlap':
+            consts = overlap_consts()
+            rc = 0
+            for title, schedule in (('the recorded schedule', rp['schedule']),):
+                res = ov.run_case(rp['case'], scratch, suffix=consts['suffix'], schedule=schedule, stem_len=consts['stem_len'])
+                bad = overlap_oracle(rp['case'], res)
+                for i, p in enumerate(rp['case']['parts']):
+                    print('replay:', ov.label_of(i, p))
+                print(f'replay ({title}, {len(res["releases"])} releases: {res["releases"]}):', (bad[0] + ' — ' + bad[1]) if bad else
+                      'linearisable: some order of the calls explains every return value and every state of the directory')
+                rc = 1 if bad else rc
+            ov.drop_pool()
+            return rc
         if kind == 'atomic':
             old, seen, _ = observe_upload(scratch, rp['root_spelling'], rp['prior'], rp['name'], bytes.fromhex(rp['data']), rp.get('stream', False), rp.get('chunk', 1000))
             bad = atomic_oracle(old, seen, rp['name'])
